@@ -122,6 +122,12 @@ func c02Gen(rt *rapid.T) wProg {
 				actor = 0
 			}
 			p.Ops = append(p.Ops, wOp{K: "del", S: actor, T: "g0", A: "sub", U: gInt(rt, 1, 3, "target")})
+		case x < 84:
+			// a busy connection has not yet got round to the notice that its topic is gone (deleted by the
+			// owner) when it publishes: the request reaches a topic which has terminated and must be answered
+			k := gInt(rt, 1, len(p.Sess)-1, "busy")
+			p.Ops = append(p.Ops, wOp{K: "sub", S: k, T: grpRef(k)}, wOp{K: "lazy", S: k}, wOp{K: "del", S: 0, T: "g0", A: "topic", F: gPct(rt, 50)},
+				wOp{K: "pub", S: k, T: grpRef(k)}, wOp{K: "tick", N: 50}, wOp{K: "lazy", S: k, F: true}, wOp{K: "pub", S: k, T: grpRef(k)})
 		case x < 85:
 			// everybody leaves the group; a session attaches again at the very moment the idle timer of the
 			// topic fires; then somebody else attaches and publishes: a session which was told it is
